@@ -634,8 +634,28 @@ def getitem(interp, obj, idx, node=None):
     raise OutOfSubset(f'subscript of {type(obj).__name__} (line {getattr_lineno(node)})')
 
 
+def _const_step(step):
+    if is_sym(step):
+        st = simplify_value(step)
+        if is_sym(st):
+            raise OutOfSubset('slice with a symbolic step')
+        step = st
+    if not isinstance(step, int) or isinstance(step, bool) or step <= 0:
+        raise OutOfSubset('slice with a non-positive or non-integer step')
+    return step
+
+
 def getitem_step_slice(interp, obj, idx, node):
-    raise OutOfSubset('slice with a step')
+    """a[lo:hi:s] for a concrete positive step (CPython slice.indices: same clamping as step 1): positions lo, lo+s, ... < hi."""
+    st = _const_step(idx.step)
+    lo, hi = slice_bounds(None if idx.start is None else V.to_int_term(idx.start), None if idx.stop is None else V.to_int_term(idx.stop), obj.length)
+    ln = z3.If(hi > lo, (hi - lo + (st - 1)) / st, z3.IntVal(0))
+    j = z3.Int('j!sl')
+    data = z3.Lambda([j], z3.Select(obj.arr, lo + j * st))
+    interp.ctx.use(A('python.slice.step', 'a[lo:hi:s] with s > 0 selects positions lo + k*s < hi after CPython clamping of lo and hi'))
+    if isinstance(obj, SSeq):
+        return SSeq(obj.kind, z3.simplify(ln), data, obj.elem_kind)
+    return SArr(z3.simplify(ln), data, obj.dtype)
 
 
 def coerce_elem(interp, arr, v, node=None):
@@ -672,11 +692,17 @@ def setitem(interp, obj, idx, v, node=None):
             obj.arr = z3.Store(obj.arr, j, val)
             return
         if isinstance(idx, slice):
-            if idx.step is not None and not (not is_sym(idx.step) and idx.step == 1):
-                raise OutOfSubset('slice store with a step')
+            st = 1 if idx.step is None else _const_step(idx.step)
             lo, hi = slice_bounds(None if idx.start is None else V.to_int_term(idx.start),
                                   None if idx.stop is None else V.to_int_term(idx.stop), obj.length)
             j = z3.Int('j!ss')
+            if st != 1:
+                if isinstance(v, (SArr, VarView)):
+                    raise OutOfSubset('stepped slice store of an array')
+                val = coerce_elem(interp, obj, v, node)
+                ctx.use(A('numpy.setitem.slice', 'a[lo:hi:s] = scalar writes exactly the positions of slice.indices and keeps shape and dtype'))
+                obj.arr = z3.Lambda([j], z3.If(z3.And(lo <= j, j < hi, (j - lo) % st == 0), val, z3.Select(obj.arr, j)))
+                return
             if isinstance(v, (SArr, VarView)):
                 ln = z3.If(hi > lo, hi - lo, z3.IntVal(0))
                 if not ctx.decide(z3.Or(v.length == ln, v.length == 1), f'slice-store-len@L{getattr_lineno(node)}'):
@@ -1478,3 +1504,227 @@ def construct(interp, cls, args, kwargs, node=None):
     obj = SObj(cls, {}, label=cls.__name__)
     interp.call_function(from_real(init), [obj] + list(args), kwargs, self_obj=obj)
     return obj
+
+
+# ---------------------------------------------------------------------------------------------
+# opaque n-dimensional arrays (shape/dtype algebra only; contents are not modelled) - used by the container contracts (C09)
+# ---------------------------------------------------------------------------------------------
+ARROBJ = z3.DeclareSort('ndarray')
+ND_NDIM = z3.Function('ndim', ARROBJ, INT)
+ND_LEN0 = z3.Function('shape0', ARROBJ, INT)
+ND_SIZE = z3.Function('size', ARROBJ, INT)
+ND_DTYPE = z3.Function('dtype', ARROBJ, INT)
+
+
+class SDType(Sym):
+    """A NumPy dtype as an uninterpreted integer code."""
+
+    def __init__(self, e):
+        self.e = e
+
+
+class SeqVal(Sym):
+    """An arbitrary Python sequence (list / tuple / range, possibly nested): only its length is known."""
+
+    def __init__(self, length):
+        self.length = length
+
+
+class SND(Sym):
+    """An ndarray whose shape/dtype algebra is modelled through uninterpreted functions of an opaque object."""
+    mutable = True
+
+    def __init__(self, obj):
+        self.obj = obj
+
+    @property
+    def length(self):
+        return ND_LEN0(self.obj)
+
+
+def fresh_nd(interp, name, *, ndim=None, len0=None, dtype=None, size=None) -> SND:
+    ctx = interp.ctx
+    o = ctx.fresh(name, ARROBJ)
+    ctx.assume(z3.And(ND_NDIM(o) >= 1, ND_LEN0(o) >= 0, ND_SIZE(o) >= 0, z3.Implies(ND_NDIM(o) == 1, ND_SIZE(o) == ND_LEN0(o))))
+    if ndim is not None:
+        ctx.assume(ND_NDIM(o) == ndim)
+    if len0 is not None:
+        ctx.assume(ND_LEN0(o) == len0)
+    if dtype is not None:
+        ctx.assume(ND_DTYPE(o) == dtype)
+    if size is not None:
+        ctx.assume(ND_SIZE(o) == size)
+    return SND(o)
+
+
+_orig_np_array = _MODELS[np.array]
+
+
+def _np_array_nd(interp, args, kwargs, node):
+    x = args[0]
+    if isinstance(x, SeqVal):
+        # deliberately weak (DESIGN section 5): np.array(sequence) has shape[0] == len(sequence) and ndim >= 1; nothing else is promised
+        interp.ctx.use(A('numpy.array.weak', 'np.array(seq[, dtype]) is a fresh array with shape[0] == len(seq) and ndim >= 1 (ndim not otherwise constrained); '
+                                             'it raises ValueError/TypeError when the elements cannot be converted'))
+        if interp.ctx.choose(2, 'np.array-raises') == 1:
+            interp.raise_(ValueError, 'np.array')
+        dt = kwargs.get('dtype')
+        return fresh_nd(interp, 'np.array', len0=x.length, dtype=dt.e if isinstance(dt, SDType) else None)
+    return _orig_np_array(interp, args, kwargs, node)
+
+
+_np_array_nd.always = False
+_MODELS[np.array] = _np_array_nd
+
+_orig_np_full = _MODELS[np.full]
+
+
+def _np_full_nd(interp, args, kwargs, node):
+    n, v = args[0], args[1]
+    dt = kwargs.get('dtype', args[2] if len(args) > 2 else None)
+    if isinstance(v, (SND, SeqVal)) or isinstance(dt, SDType) or isinstance(v, Sym) and not isinstance(v, (SInt, SFloat, SBool, SStr)):
+        interp.ctx.use(A('numpy.full.weak', 'np.full(n, v[, dtype]) is a fresh 1-D array of length n (dtype as given), or raises ValueError when v cannot be broadcast'))
+        if isinstance(v, (SND, SeqVal)) and interp.ctx.choose(2, 'np.full-raises') == 1:
+            interp.raise_(ValueError, 'np.full')
+        return fresh_nd(interp, 'np.full', ndim=1, len0=V.to_int_term(n), dtype=dt.e if isinstance(dt, SDType) else None)
+    if isinstance(v, (SInt, SFloat, SBool, SStr)) and builtins.getattr(interp.ctx, 'nd_mode', False):
+        return fresh_nd(interp, 'np.full', ndim=1, len0=V.to_int_term(n), dtype=dt.e if isinstance(dt, SDType) else None)
+    return _orig_np_full(interp, args, kwargs, node)
+
+
+_MODELS[np.full] = _np_full_nd
+
+_orig_getattr = getattr
+
+
+def getattr(interp, obj, name, node=None):     # noqa: F811 - extends the attribute table above with SND / SDType
+    from .interp import SymMethod
+    if isinstance(obj, SND):
+        if name == 'shape':
+            return _NDShape(obj)
+        if name == 'ndim':
+            return simplify_value(SInt(ND_NDIM(obj.obj)))
+        if name == 'dtype':
+            return SDType(ND_DTYPE(obj.obj))
+        if name in ('flatten', 'astype', 'copy'):
+            return SymMethod(obj, name)
+    return _orig_getattr(interp, obj, name, node)
+
+
+class _NDShape(Sym):
+    def __init__(self, nd):
+        self.nd = nd
+
+
+_orig_getitem = getitem
+
+
+def getitem(interp, obj, idx, node=None):      # noqa: F811
+    if isinstance(obj, _NDShape):
+        if not is_sym(idx) and idx == 0:
+            return simplify_value(SInt(ND_LEN0(obj.nd.obj)))
+        raise OutOfSubset('shape[k] for k != 0 of an opaque array')
+    return _orig_getitem(interp, obj, idx, node)
+
+
+_orig_setitem = setitem
+INPLACE = z3.Function('assigned_in_place', ARROBJ, INT, ARROBJ)     # (array, assignment id) -> array after an in-place assignment
+
+
+def setitem(interp, obj, idx, v, node=None):   # noqa: F811
+    from .interp import DictProxy
+    if isinstance(obj, SND):
+        ctx = interp.ctx
+        ctx.use(A('numpy.setitem.inplace', 'in-place item / slice assignment keeps shape and dtype of the array and raises (ValueError/TypeError) '
+                                           'before writing anything when the value cannot be broadcast or converted'))
+        if isinstance(v, (SND, SeqVal, SStr, str)) and ctx.choose(2, 'inplace-assignment-raises') == 1:
+            interp.raise_(ValueError, 'inplace')
+        k = ctx.fresh('assign', INT)
+        new = INPLACE(obj.obj, k)
+        ctx.assume(z3.And(ND_NDIM(new) == ND_NDIM(obj.obj), ND_LEN0(new) == ND_LEN0(obj.obj), ND_DTYPE(new) == ND_DTYPE(obj.obj), ND_SIZE(new) == ND_SIZE(obj.obj)))
+        owner = builtins.getattr(obj, 'owner', None)
+        obj.obj = new
+        if owner is not None:
+            owner[0].rebind(owner[1], new)
+        return
+    if isinstance(obj, DictProxy):
+        kind, k = _split_key(idx)
+        if kind == 'var' and builtins.getattr(obj.obj, 'ndstore', None) is not None:
+            if not isinstance(v, SND):
+                raise OutOfSubset('binding a non-array under "_" + name')
+            obj.obj.ndstore.rebind(k, v.obj)
+            return
+    return _orig_setitem(interp, obj, idx, v, node)
+
+
+_orig_call_method = call_method
+
+
+def call_method(interp, recv, name, args, kwargs, node=None):   # noqa: F811
+    if isinstance(recv, SND):
+        if name == 'flatten':
+            interp.ctx.use(A('numpy.flatten.nd', 'flatten() returns a fresh 1-D array with as many elements as the array, same dtype'))
+            return fresh_nd(interp, 'flatten', ndim=1, len0=ND_SIZE(recv.obj), dtype=ND_DTYPE(recv.obj))
+        if name == 'astype':
+            interp.ctx.use(A('numpy.astype.nd', 'astype(dtype) returns a fresh array of the same shape with the given dtype, or raises ValueError/TypeError'))
+            if interp.ctx.choose(2, 'astype-raises') == 1:
+                interp.raise_(ValueError, 'astype')
+            dt = args[0] if args else kwargs.get('dtype')
+            r = fresh_nd(interp, 'astype', ndim=ND_NDIM(recv.obj), len0=ND_LEN0(recv.obj), size=ND_SIZE(recv.obj), dtype=dt.e if isinstance(dt, SDType) else None)
+            return r
+        if name == 'copy':
+            return fresh_nd(interp, 'copy', ndim=ND_NDIM(recv.obj), len0=ND_LEN0(recv.obj), size=ND_SIZE(recv.obj), dtype=ND_DTYPE(recv.obj))
+    return _orig_call_method(interp, recv, name, args, kwargs, node)
+
+
+class NDStore:
+    """name -> opaque array object, for the `__dict__['_' + name]` family of a container (C09)."""
+
+    def __init__(self, data):
+        self.data = data      # z3 Array String -> ndarray
+
+    def get(self, name_term):
+        return z3.Select(self.data, name_term)
+
+    def rebind(self, name_term, obj):
+        self.data = z3.Store(self.data, name_term, obj)
+
+
+_orig_dictproxy_get = dictproxy_get
+
+
+def dictproxy_get(interp, dp, key, node=None):   # noqa: F811
+    nds = builtins.getattr(dp.obj, 'ndstore', None)
+    if nds is not None:
+        kind, k = _split_key(key)
+        if kind == 'var' or (kind == 'field' and k.startswith('_') and k not in dp.obj.fields and k[1:] in builtins.getattr(dp.obj, 'nd_names', ())):
+            term = k if kind == 'var' else z3.StringVal(k[1:])
+            r = SND(nds.get(term))
+            r.owner = (nds, term)
+            return r
+    return _orig_dictproxy_get(interp, dp, key, node)
+
+
+_orig_sym_isinstance = sym_isinstance
+
+
+def sym_isinstance(interp, v, cls):   # noqa: F811
+    if isinstance(v, SeqVal):
+        if isinstance(cls, tuple):
+            return any(sym_isinstance(interp, v, c) for c in cls)
+        return cls in (_Sequence, object) or builtins.getattr(cls, '__name__', '') == 'Sequence'
+    if isinstance(v, SND):
+        if isinstance(cls, tuple):
+            return any(sym_isinstance(interp, v, c) for c in cls)
+        return cls in (np.ndarray, object)
+    return _orig_sym_isinstance(interp, v, cls)
+
+
+def _isinstance_model(interp, args, kwargs, node):
+    v, cls = args
+    if not isinstance(v, Sym):
+        return isinstance(v, cls)
+    return sym_isinstance(interp, v, cls)
+
+
+_MODELS[isinstance] = _isinstance_model
